@@ -208,6 +208,10 @@ def check_record(case, rec, viol, stats):
     moved = after != soc
     if k == "L":
         hi = max(soc, min(1.0, target))
+        if after > 1.0 and soc <= 1.0:
+            # "never raises it above 100 %": the final SoC is clamped with min(soc, 1), so the bound is exact in
+            # doubles too (a SoC one ulp above 1 makes the next request on the full battery raise)
+            viol.append(("load_soc", "C01:load_soc_above_one", "%r -> %r" % (soc, after)))
         if after < soc - tol_s:
             viol.append(("load_soc", "C01:load_lowers_soc", "%r -> %r" % (soc, after)))
         if after > hi + tol_s + (2 * math.ulp(1.0) if tp is not None else 0):
